@@ -20,6 +20,7 @@ class Refs(object):
         self.al = env.import_algopy()
         self.F = self.al.Function
         self.B = programs.AlgopyBackend(self.al)
+        self.BT = programs.AlgopyBackend(self.al, traced=True)
         self.run = run
         self.slog = slog
         self.props = set(props)
@@ -114,19 +115,21 @@ class Refs(object):
         """A brand-new graph with the program recorded in one go."""
         cg = self.al.CGraph()
         try:
-            regs = [self.F(x) for x in inputs]
-            if prog.get('frozen'):
-                for ins in prog['instrs']:
-                    if ins.get('off'):
-                        cg.trace_off()
-                        try:
-                            regs.append(programs.exec_instr(ins, regs, self.B))
-                        finally:
-                            cg.trace_on()
-                    else:
-                        regs.append(programs.exec_instr(ins, regs, self.B))
-            else:
-                regs = programs.run_program(prog, regs, self.B)
+            npre = prog.get('npre', 0)
+            regs = [None] * len(inputs)
+            for ins in prog['instrs'][:npre]:
+                regs.append(programs.exec_instr(ins, regs, self.BT))      # prelude: before the inputs
+            for j, x in enumerate(inputs):
+                regs[j] = self.F(x)
+            for ins in prog['instrs'][npre:]:
+                if ins.get('off'):
+                    cg.trace_off()
+                    try:
+                        regs.append(programs.exec_instr(ins, regs, self.BT))
+                    finally:
+                        cg.trace_on()
+                else:
+                    regs.append(programs.exec_instr(ins, regs, self.BT))
         finally:
             cg.trace_off()
         n = len(prog['n_in'])
